@@ -224,7 +224,7 @@ fn eq_case<Q: QueueApi>(seed: u64, idx: u64, cov: &mut EqCov) -> Result<serde_js
         d.q_clone_from(&src.q);
         d
     };
-    let mut cl = State { q: cq, m: src.m.clone(), order_suspended: false, expected_leaks: 0, used_drain_or_clear: false };
+    let mut cl = State { q: cq, m: src.m.clone(), order_suspended: false, expected_leaks: 0, used_drain_or_clear: false, tables_broken: false };
     if !cl.q.eq_q(&src.q) || !src.q.eq_q(&cl.q) {
         return Err(w(eq_viol(kind, "clone", "a clone is not equal to its source".to_string())));
     }
@@ -761,6 +761,18 @@ pub fn mode_hashers(a: &Args) -> i32 {
             let (r2, t2) = crate::dispatch!(kind, h, run_exp_d, &hh, &mut stats);
             runs += 1;
             *per_hasher.entry(h).or_insert(0) += 1;
+            if r2.is_empty() && !ref_clean {
+                // the reference hasher misbehaves on this history but this one does not: the
+                // behaviour depends on the hasher
+                if let Some(r) = reports.first() {
+                    let mut v = r.viol.clone();
+                    if !v.props.contains(&"C18") {
+                        v.props.push("C18");
+                    }
+                    let sig = format!("hasher:{}-but-not-{}/{}", ref_hasher, h, v.sig());
+                    sink.viol(&v.props, &sig, &v.detail, serde_json::json!({"mode":"hist","step":r.step,"history":r.history,"clean_under":h}));
+                }
+            }
             if !r2.is_empty() {
                 for r in &r2 {
                     if ref_clean {
